@@ -10,6 +10,9 @@ Definition fl_of (z : Z) : flow := if z =? 0 then FOut else FIn.
 Definition dims_of (d : list Z) : list nat := map Z.to_nat d.
 Definition P (f w : Z) (sg : bool) (init : Z) (d : list Z) : member := Port (fl_of f) (Sh w sg) init (dims_of d).
 Definition I (f : Z) (w : bool) (ms : members) (d : list Z) : member := Iface (fl_of f) w ms (dims_of d).
+Definition MP (n f w : Z) (sg : bool) (init : Z) (d : list Z) : Z * member := (n, P f w sg init d).
+Definition MI (n f : Z) (w : bool) (ms : members) (d : list Z) : Z * member := (n, I f w ms d).
+Definition Sg (w : bool) (ms : members) : sigt := (w, ms).
 Definition N (n : Z) : item := PN n.
 Definition X (i : Z) : item := PI (Z.to_nat i).
 
@@ -65,6 +68,7 @@ Fixpoint obj_put (o : obj) (p : path) (e : edit) : obj :=
       end
   end.
 
+Definition Ed (p : path) (e : edit) : path * edit := (p, e).
 (* argument k: (flip the signature first?) create(path=(h,)), edit raw attributes, (wrap with flipped()?) *)
 Definition mk (x : sigt) (h : Z) (fs fo : bool) (edits : list (path * edit)) : obj :=
   let o := create (if fs then sig_flip x else x) [PN h] in
